@@ -1157,3 +1157,7 @@ pub fn futures_multiqueue_with<RW: QueueRW<T>, T>(
     };
     (ftx, rtx)
 }
+
+#[cfg(multiqueue2_verif)]
+#[path = "verif_hooks/multiqueue_access.rs"]
+pub mod verif_access;
